@@ -66,8 +66,21 @@ class Probes:
 
         def bounds(self_, reporting_units, nonreporting_units, conf_frac, alpha, estimand):
             pr._fit_rows = []
-            r = orig_b(self_, reporting_units, nonreporting_units, conf_frac, alpha, estimand)
+            pr._preds = []
+            pr._in_bounds = True
+            try:
+                r = orig_b(self_, reporting_units, nonreporting_units, conf_frac, alpha, estimand)
+            finally:
+                pr._in_bounds = False
             if pr._cur is not None:
+                cal_ = r.conformalization
+                rc, lc = f"results_{estimand}", f"last_election_results_{estimand}"
+                if rc in cal_.columns and lc in cal_.columns:
+                    # the held-out units' ACTUAL relative change, recomputed from their counts (not read from the
+                    # residual column the model was handed)
+                    pr._cur["cal_actual"] = ((cal_[rc].to_numpy(dtype=float) - cal_[lc].to_numpy(dtype=float))
+                                             / cal_[lc].to_numpy(dtype=float))
+                pr._cur["bound_predictions"] = [a for a in pr._preds if a.shape[0] == cal_.shape[0]]
                 pr._cur["fit_rows"] = list(pr._fit_rows)
                 pr._cur["n_rep_bounds"] = int(reporting_units.shape[0])
                 if "geographic_unit_fips" in r.conformalization.columns:
@@ -106,7 +119,12 @@ class Probes:
                 pr._fit_rows.append(int(np.asarray(args[1]).shape[0]))
                 pr._fit_y = np.asarray(args[2], dtype=float).ravel().tolist()
 
+        def after_predict(tok, args, kwargs, res, exc):
+            if getattr(pr, "_in_bounds", False) and res is not None:
+                pr._preds.append(np.asarray(res, dtype=float).ravel().copy())
+
         p.wrap(QuantileRegressionSolver, "fit", before=before_fit)
+        p.wrap(QuantileRegressionSolver, "predict", after=after_predict)
         p.set(ConformalElectionModel, "get_unit_prediction_interval_bounds", bounds)
         p.set(NonparametricElectionModel, "get_unit_prediction_intervals", intervals)
         # local-variable probe on the ORIGINAL code object
@@ -191,6 +209,31 @@ def judge_call(rec, out):
                 msg=f"{where}: {rec['n_rep_bounds']} reporting units, bound regressions fit on {rec['fit_rows']} rows "
                     f"but {n_cal_} calibration units (training and calibration rows overlap or leave units out)",
                 witness=dict(n_reporting=rec["n_rep_bounds"], fit_rows=rec["fit_rows"], n_cal=n_cal_)))
+    # the conformity scores must measure the distance of the held-out units' ACTUAL values from the fitted bounds
+    if "cal_actual" in rec and rec.get("bound_predictions"):
+        sl, su, act = rec["cal_lower"], rec["cal_upper"], rec["cal_actual"]
+        tol = 1e-9 * (1 + np.abs(act))
+        pair = None
+        for a in rec["bound_predictions"]:
+            for b in rec["bound_predictions"]:
+                if a is not b and np.all(np.abs((a - b) - (sl + su)) <= 1e-9 * (1 + np.abs(a) + np.abs(b))):
+                    pair = (a, b)
+                    break
+            if pair:
+                break
+        if pair is None and len(rec["bound_predictions"]) >= 2 and len(act):
+            out["counters"]["scores_unmatched_to_predictions"] = out["counters"].get("scores_unmatched_to_predictions", 0) + 1
+        elif pair is not None:
+            out["counters"]["scores_checked_against_actual"] = out["counters"].get("scores_checked_against_actual", 0) + 1
+            bad = (np.abs(sl - (pair[0] - act)) > tol) | (np.abs(su - (act - pair[1])) > tol)
+            if bad.any():
+                j = int(np.argmax(bad))
+                out["violations"].append(dict(
+                    key="C04/calibration-score-not-from-actual-value",
+                    msg=f"{where}: calibration unit #{j}: actual relative change {act[j]:.6g}, fitted bounds "
+                        f"[{pair[0][j]:.6g}, {pair[1][j]:.6g}] give scores ({pair[0][j] - act[j]:.6g}, "
+                        f"{act[j] - pair[1][j]:.6g}) but the model used ({sl[j]:.6g}, {su[j]:.6g})",
+                    witness=dict(unit=j, actual=float(act[j]), n_bad=int(bad.sum()), n_cal=int(len(act)))))
     cands, s, w, info = reference_corrections(rec)
     if not cands:
         out["violations"].append(dict(key="C04/no-score-exceeds-quantile", msg=f"{where}: no calibration score has a "
@@ -330,6 +373,10 @@ def run_det(spec, inputs=None):
             o.update(el_noise_scale=0.02)  # tight noise: negative corrections
         if spec["i"] % 5 == 0:
             o.update(el_equal_baseline=True)
+        if spec["i"] % 6 == 4:
+            # a party that more than doubles in many units while turnout is ordinary (relative changes far outside
+            # the band of the turnout-factor gate), estimated for that party
+            o.update(el_party_surge=True, estimands=[["dem"], ["gop", "dem"], ["dem", "turnout"]][spec["i"] % 3])
         el, feed, status, call = cases_mod.build(spec["seed"], PROPERTY, spec["i"], o)
         call["model_parameters"]["robust"] = bool(spec["i"] % 2)
         if spec["i"] % 7 == 3:
